@@ -529,5 +529,7 @@ def run(chk):
             r6.require(not wrong, f"{sc.key}|normalised-by-N:{val}" + ("" if spelled == val else "|upper-case"), sc.where(),
                        f"criterion `{spelled}` " + ("is an RMSE form and must not be divided by N again" if rmse else "must be normalised by N (information criteria are per data point)")
                        + (f"; returned {wrong[0][1].key()[:120]}" if wrong else ""))
-    split_default = chk.repo.cls("opendsm.eemeter.models.daily.utilities.settings", "Split_Selection_Definition").attrs.get("criteria")
-    r6.require(split_default is not None and "ModelSelectionCriteria.BIC" in unparse(split_default[1]), "Split_Selection_Definition.criteria|default-bic", "settings.py", "default split-selection criterion must be BIC")
+    # the default criterion, read through the settings field census (constant evaluation: literal, enum member or named constant alike)
+    from rules.c14 import field_census as _census
+    _crit = _census(chk, chk.repo.cls("opendsm.eemeter.models.daily.utilities.settings", "Split_Selection_Definition")).get("criteria", {})
+    r6.require(str(_crit.get("default")).lower() == "bic", "Split_Selection_Definition.criteria|default-bic", "settings.py", f"default split-selection criterion must be BIC; found {_crit.get('default')!r}")
